@@ -93,6 +93,7 @@ def scaled(x): return x * 2.0 + SHIFT_IN_HELPER
 SHIFT_IN_HELPER = 1.0
 def jet_ok(j): return j.pt() > 20.0 and j.eta() < 3.0
 def lead_pt(js): return js.Select(lambda j: j.pt()).First()
+def scaled_by(x, k=3.0, off=SHIFT_IN_HELPER): return x * k + off
 def trk_sums(j): return j.trks().Select(lambda t: j.trks().Select(lambda h: h.pt() + t.pt() * 100 + j.pt()))
 def trk_prod(j, w): return j.trks().Select(lambda t: j.trks().Select(lambda t_1: t_1.pt() * t.pt() + w))
 '''
@@ -133,7 +134,8 @@ SELECT = {
         ("num", "{v}.jets().Count()", ANY), ("num", "{v}.jets({k}.0).Where(lambda j: j.eta() < 2.0).Count()", ANY),
         ("num", "{v}.jets(maxeta=2.0, minpt={k}.0).Count() * 2", ANY), ("num", "{v}.met() if {v}.nvtx() > 1 else -1.0", ANY),
         ("num", "len([j for j in {v}.jets() if j.pt() > {k}])", ANY), ("num", "{v}.met() * {k} - {v}.nvtx() / 2", ANY),
-        ("num", "{v}.met() + CUT", CALLABLE), ("num", "scaled({v}.met())", CALLABLE), ("num", "{v}.jets().Where(lambda j: jet_ok(j)).Count()", CALLABLE),
+        ("num", "{v}.met() + CUT", CALLABLE), ("num", "scaled({v}.met())", CALLABLE), ("num", "scaled_by({v}.met())", CALLABLE), ("num", "scaled_by({v}.met(), off={v}.nvtx())", CALLABLE),
+        ("seqnum", "{v}.jets().Select(lambda j: scaled_by(j.pt(), {v}.met()))", CALLABLE), ("num", "{v}.jets().Where(lambda j: jet_ok(j)).Count()", CALLABLE),
         ("num", "{v}.met() + math.pi", CALLABLE), ("num", "{v}.jets().Select(lambda {v}: {v}.pt()).Count()", ANY),
         ("seqJet", "{v}.jets()", ANY), ("seqJet", "{v}.jets(minpt={k}.0)", ANY), ("seqJet", "[j for j in {v}.jets() if j.pt() > {k}]", ANY),
         ("seqJet", "{v}.jets().Where(lambda j: j.pt({k}.0) > {v}.met())", ANY), ("seqTrk", "{v}.trks()", ANY),
@@ -162,7 +164,7 @@ SELECT = {
     "Jet": [
         ("num", "{v}.pt()", ANY), ("num", "{v}.pt(shift={k})", ANY), ("num", "{v}.pt({k}.0, 1) + {v}.eta()", ANY), ("num", "{v}.ntrk()", ANY),
         ("num", "{v}.trks().Count()", ANY), ("num", "{v}.trks(minpt={k}.0).Select(lambda t: t.pt()).Count()", ANY), ("num", "{v}.idx", ANY),
-        ("num", "scaled({v}.pt())", CALLABLE), ("num", "{v}.pt() - CUT", CALLABLE),
+        ("num", "scaled({v}.pt())", CALLABLE), ("num", "scaled_by({v}.pt(), {k}.0)", CALLABLE), ("num", "scaled_by({v}.eta())", CALLABLE), ("num", "{v}.pt() - CUT", CALLABLE),
         ("seqTrk", "{v}.trks()", ANY), ("seqnum", "[t.pt({k}.0) for t in {v}.trks()]", ANY), ("seqnum", "{v}.trks().Select(lambda t: t.pt() * {v}.pt())", ANY),
         ("tup", "({v}.pt(), {v}.eta())", ANY), ("dic", "Pair(a={v}.pt(), b={v}.eta())", CALLABLE),
     ],
